@@ -58,14 +58,14 @@ def run(ctx):
         open(rows, "w").write(r.out)
         recs = harness_json([VH, "position", rows])
         s = recs[-1]
-        if s["texts"] != r.distinct:
-            raise ToolError(f"row count {s['texts']} != states {r.distinct}")
         ctx.add("traces_validated_against_impl", s["texts"])
         ctx.add("conversions_compared", s["compared"])
         for m in recs[:-1]:
             c = m["case"]
             ctx.violation(f"position conversion disagrees with the specification: {json.dumps(c)[:400]}", c,
                           key=f"{c.get('what')}:{c.get('text')!r}")
+        if s["mismatches"] == 0 and s["texts"] != r.distinct:
+            raise ToolError(f"row count {s['texts']} != states {r.distinct}")
         if n == 4:
             ctx.sample({"text": "a\\r\\n\U0001F600", "expected": "offset 3 -> (1,0); offset 7 -> (1,2); (1,1) -> offset 7 (inside a surrogate pair rounds up)"})
     if not ctx.quick:
